@@ -30,6 +30,9 @@ type Finding struct {
 	Signature string `json:"signature"`
 	// Signatures lists further signatures of the same root cause.
 	Signatures []string `json:"signatures,omitempty"`
+	// RaceFunctions (C17): every function that touches the unsynchronised state of this finding;
+	// a race report is this finding iff both of its spine-go frames are listed.
+	RaceFunctions []string `json:"race_functions,omitempty"`
 	WhatFails string `json:"what_fails"`
 	Commit    string `json:"commit,omitempty"`
 }
@@ -270,4 +273,35 @@ func SaveReplay(name string, v any) string {
 	_ = os.WriteFile(p, b, 0o644)
 	fmt.Printf("VERIF-REPLAY %s\n", p)
 	return p
+}
+
+// FlushStats writes the statistics file (for packages with their own TestMain logic).
+func FlushStats() { flush() }
+
+// HitKnown counts an observation of an open known finding.
+func HitKnown(id string) { rec.hitKnown(id) }
+
+// RaceState is an open known finding keyed by unsynchronised state.
+type RaceState struct {
+	ID        string
+	Functions map[string]bool
+}
+
+func (s RaceState) Covers(fn string) bool { return fn != "" && s.Functions[fn] }
+
+// RaceStates returns the open findings of the current property that list race functions.
+func RaceStates() []RaceState {
+	knownOnce.Do(loadKnown)
+	var out []RaceState
+	for _, k := range knownOpen {
+		if len(k.RaceFunctions) == 0 {
+			continue
+		}
+		s := RaceState{ID: k.ID, Functions: map[string]bool{}}
+		for _, f := range k.RaceFunctions {
+			s.Functions[f] = true
+		}
+		out = append(out, s)
+	}
+	return out
 }
